@@ -528,6 +528,7 @@ def handleHist (inp impl : Json) : R OpResult := do
   let mut lastStepFailed := false
   let mut lastFinFailed := false
   let mut partialFin := false       -- a failed Finalise restored some refs and not others, no successful call since
+  let mut retryOf : Option String := none   -- the previous event was a step cut short by an injected fault: its strategy (JSON text)
   let mut prevObjs : List (Option Obj) := []
   let mut prevParked : List (Option Obj) := []
   for (e, je) in events.zip implEvents do
@@ -539,6 +540,7 @@ def handleHist (inp impl : Json) : R OpResult := do
       | some r => do pure (some (← resOfJson r))
     let mut recJ : List (String × Json) := []
     tags := tags ++ [s!"ev:{ev}"]
+    if ev != "step" && ev != "race" then retryOf := none
     match ev with
     | "add" =>
       let r ← refOfJson stable canary (← jget e "ref")
@@ -642,6 +644,14 @@ def handleHist (inp impl : Json) : R OpResult := do
       if b.isSome then tags := tags ++ ["step:with-fault-budget"]
       if mixed then tags := tags ++ ["step:some-refs-annotated-some-not"]
       if w.active.any (·.obj.isNone) then tags := tags ++ ["step:object-missing"]
+      -- C06 / C15: the retry of a step that an API fault (a failed or conflicting write, a crash between two writes) cut short
+      -- goes through: whatever the interrupted call left behind, the same step without a fault does not fail
+      let stratTxt := (← jget e "strategy").compress
+      if b.isNone && ev == "step" && retryOf == some stratTxt then
+        let recovered := match implRes with | some .err => false | _ => true
+        holds := holds ++ [("C15.hist_retry_recovers", recovered), ("C06.hist_retry_recovers", recovered)]
+        tags := tags ++ ["step:retry-after-fault"]
+      retryOf := if ev == "step" && b.isSome && r1 == .err && (ensureRoutesF codec none s pre).2 != .err then some stratTxt else none
       match implRes with
       | some (.ok d) =>
         tags := tags ++ [if d then "ensure:done" else "ensure:updated"]
@@ -667,6 +677,11 @@ def handleHist (inp impl : Json) : R OpResult := do
         holds := holds ++ [("C15.hist_stateless", ok)]
       | _ => pure ()
       holds := holds ++ [("C15.hist_frame", decide (implParked = prevParked))]
+    | "init" =>
+      -- `Initialize`: every referenced object exists and has a script, or an error; nothing is written
+      let r1 : Res := if w.active.all (fun r => r.obj.isSome && r.script.isSome) then .ok true else .err
+      recJ := [("res", resToJson r1)]
+      holds := holds ++ [("C15.hist_init_writes_nothing", decide (implObjs = prevObjs) && decide (implParked = prevParked))]
     | "fin" =>
       let b ← budgetOfJson e
       let annotatedBefore := (w.active.filter fun r => match r.obj with | some x => !noOrig x | none => false).length
